@@ -523,3 +523,47 @@ def _m_makedirs(it: Any, args: list, kwargs: dict, f: Any) -> Any:
     if it.p.choose(2, "os.makedirs-fails") == 1:
         raise PyRaise(SExc(PermissionError, ()))
     return None
+
+
+# =================================================================================================================
+# Ghost device streams (C10): dev.rx = bytes the device will deliver (universally quantified), dev.tx = bytes written
+# =================================================================================================================
+class GhostDev(ExtObject):
+    def __init__(self, it: Any, name: str = "dev"):
+        self.rx = it.p.fresh_bytes(name + ".rx")
+        self.pos: Any = 0
+        self.tx: Any = b""
+        self.timeout = 5000
+
+    def __deepcopy__(self, memo: dict) -> "GhostDev":
+        import copy as _copy
+
+        r = _copy.copy(self)
+        memo[id(self)] = r
+        return r
+
+    def vf_attr(self, it: Any, name: str) -> Any:
+        if name in ("rx", "pos", "tx", "timeout"):
+            return getattr(self, name)
+        raise Unsupported(f"device attribute {name}")
+
+    def vf_call(self, it: Any, name: str, args: list, kwargs: dict, f: Any) -> Any:
+        import ast as _ast
+
+        p = it.p
+        if name == "read":
+            n = args[0] if args else kwargs["length"]
+            tn = int_term(n)
+            tpos = int_term(self.pos)
+            # the device may deliver fewer bytes than requested only by timing out (documented: SPSDKTimeoutError / McuBootConnectionError)
+            if p.branch(tpos + tn > self.rx.n, "device-stream-exhausted"):
+                from spsdk.exceptions import SPSDKConnectionError
+
+                raise PyRaise(SExc(SPSDKConnectionError, ()))
+            out = ops.bytes_slice(p, self.rx, mk_int(tpos), mk_int(tpos + tn))
+            self.pos = mk_int(tpos + tn)
+            return out
+        if name == "write":
+            self.tx = ops.bytes_concat(self.tx, args[0]) if ops.has_sym(self.tx) or len(self.tx) else as_sbytes(args[0])
+            return None
+        raise Unsupported(f"device.{name}")
